@@ -32,6 +32,10 @@ def comp_src(c: str, params: list) -> str:
     if k[0] == "T":
         params.append(("s", int(k[1])))
         return f"p{len(params) - 1}"
+    if k[0] == "G":  # a module-level int constant used by name: not a "constant expression" for the converter
+        return const_name(int(k[1]))
+    if k[0] == "M":  # unary minus applied to such a name
+        return "-" + const_name(-int(k[1]))
     if k[0] == "V":
         vals = [int(x) for x in k[1].split(",")] if k[1] else []
         params.append(("v", vals))
@@ -53,9 +57,23 @@ def comp_src(c: str, params: list) -> str:
     raise ValueError(c)
 
 
+def const_name(v: int) -> str:
+    return f"KP{v}" if v >= 0 else f"KN{-v}"
+
+
+CONST_HEADER = "".join(f"KP{v} = {v}\nKN{v} = {-v}\n" for v in range(0, 10))
+
+
+def model_comp(c: str) -> str:
+    """The component as the Lean model sees it: an int used through a global name (`G`, `M`) is not a
+    Python-int literal for the converter (`_is_constant_expr` knows literals and signs of literals only),
+    so it is a rank-0 tensor-valued index whose value happens to be known."""
+    return "T:" + c[2:] if c[0] in "GM" else c
+
+
 def case_line(mode: str, case: dict) -> str:
     shp = ",".join(map(str, case["shape"])) or "-"
-    return f"{mode} {shp} " + " ".join(case["comps"])
+    return f"{mode} {shp} " + " ".join(model_comp(c) for c in case["comps"])
 
 
 def py_index(case: dict, wrap):
@@ -69,6 +87,8 @@ def py_index(case: dict, wrap):
             out.append(int(k[1]))
         elif k[0] == "T":
             out.append(wrap("s", int(k[1])))
+        elif k[0] in "GM":
+            out.append(int(k[1]))  # in Python (eager mode, NumPy) the name is just an int
         elif k[0] == "V":
             out.append(wrap("v", [int(x) for x in k[1].split(",")] if k[1] else []))
         else:
@@ -145,7 +165,17 @@ def gen_case(rng) -> dict:
             if seen:
                 comps[i] = "F"
             seen = True
-    return {"shape": shape, "comps": comps}
+    return {"shape": shape, "comps": by_name(rng, comps)}
+
+
+def by_name(rng, comps):
+    """Some rank-0 tensor indices become ints used through a global name (`A[K]`, `A[-K]`)."""
+    out = []
+    for c in comps:
+        if c.startswith("T:") and abs(int(c[2:])) <= 9 and rng.random() < 0.15:
+            c = rng.choice("GM") + c[1:]
+        out.append(c)
+    return out
 
 
 def exhaustive_small():
@@ -191,11 +221,11 @@ def gen_mixed(rng, ranks=(3,)) -> dict:
         # correspondence with the model is still checked
         k = rng.randrange(ncomp)
         comps[k] = "V:" + ",".join(str(rng.randint(0, shape[k] - 1)) for _ in range(rng.randint(1, 2)))
-    return {"shape": shape, "comps": comps}
+    return {"shape": shape, "comps": by_name(rng, comps)}
 
 
 def gen_comp_slice(rng, d: int) -> str:
-    step = rng.choice(["_", "c1", "c2", "c-1", "c-2", "_", "c1"])
+    step = rng.choice(["_", "c1", "c2", "c-1", "c-2", "_", "c1"]) if rng.random() < 0.98 else "c0"
     return f"S:{gen_bound(rng, d, False)}:{gen_bound(rng, d, False)}:{step}"
 
 
@@ -228,7 +258,7 @@ def kind_patterns(rank: int, rng):
 def comp_kind(c: str) -> str:
     if c == "F" or c == "S:_:_:_":
         return "skip"
-    return {"S": "sliced", "I": "scalar", "T": "nonscalar", "V": "nonscalar"}[c[0]]
+    return {"S": "sliced", "I": "scalar", "T": "nonscalar", "V": "nonscalar", "G": "nonscalar", "M": "nonscalar"}[c[0]]
 
 
 def pred_d22(case: dict) -> bool:
@@ -256,20 +286,42 @@ def axis_shift_shape(case: dict, mode: str) -> bool:
         use_slice = bool(sliced) or len(scalars) > 1
         removed = list(scalars) if use_slice else []
         gathered = nons + ([] if use_slice else scalars)
-        removed += [g for g in gathered if comps[g][0] in "IT"]
+        removed += [g for g in gathered if comps[g][0] in "ITGM"]
     else:
-        removed = [i for i, c in enumerate(comps) if c[0] in "IT"]
+        removed = [i for i, c in enumerate(comps) if c[0] in "ITGM"]
         gathered = [i for i, c in enumerate(comps) if c[0] == "V"]
     return any(r < g for g in gathered for r in removed)
 
 
+def pred_too_many(case: dict, mode: str) -> bool:
+    """C11-N1: more index components than the tensor has axes, in the translated graph.  (The
+    converter does not know the rank; the surplus components can only be `:` — anything else makes
+    Slice/Gather fail at run time — and are ignored.  Eager mode refuses the form.)"""
+    return mode == "graph" and len(case["comps"]) > len(case["shape"])
+
+
 def classify(case: dict, mode: str) -> str | None:
-    if pred_d22(case):
+    if pred_too_many(case, mode):
+        return "C11-N1"
+    if mode == "graph" and pred_d22(case):
+        # the eager half of D22 is repaired (Tensor.__getitem__ normalises with slice.indices)
         return "D22"
     return None
 
 
 # --------------------------------------------------------------------------- real front ends
+
+
+def _session_options():
+    import onnxruntime as ort
+
+    ort.set_default_logger_severity(4)
+    so = ort.SessionOptions()
+    so.graph_optimization_level = ort.GraphOptimizationLevel.ORT_DISABLE_ALL
+    so.log_severity_level = 4
+    so.intra_op_num_threads = 1  # the default (one thread per core) costs ~75 ms per session under load
+    so.inter_op_num_threads = 1
+    return so
 
 
 def graph_plan_and_result(fn, params, shape):
@@ -294,6 +346,8 @@ def graph_plan_and_result(fn, params, shape):
             env[n.output[0]] = np.concatenate([np.atleast_1d(env[i]) for i in ins])
         elif n.op_type == "Reshape":
             env[n.output[0]] = np.reshape(env[ins[0]], env[ins[1]])
+        elif n.op_type == "Neg" and env.get(ins[0]) is not None and ins[0] not in feeds:
+            env[n.output[0]] = -np.asarray(env[ins[0]])  # `-K` on a named constant
         elif n.op_type == "Identity":
             plan.append("identity")
         elif n.op_type == "Slice":
@@ -312,10 +366,7 @@ def graph_plan_and_result(fn, params, shape):
         else:
             plan.append(f"other:{n.op_type}")
     try:
-        so = ort.SessionOptions()
-        so.graph_optimization_level = ort.GraphOptimizationLevel.ORT_DISABLE_ALL
-        so.log_severity_level = 4
-        sess = ort.InferenceSession(model.SerializeToString(), so, providers=["CPUExecutionProvider"])
+        sess = ort.InferenceSession(model.SerializeToString(), _session_options(), providers=["CPUExecutionProvider"])
         ro = ort.RunOptions()
         ro.log_severity_level = 4
         out = sess.run(None, feeds, ro)
@@ -334,7 +385,24 @@ class _Recorder:
         class Rec(evaluator.ORTEvaluator):
             def _eval(self, schema, inputs, attributes, closure):
                 outer.log.append((schema.name, [getattr(x, "value", x) for x in inputs], dict(attributes)))
-                return super()._eval(schema, inputs, attributes, closure)
+                prep = getattr(evaluator, "_prepare_model_and_inputs_for_eager", None)
+                back = getattr(evaluator, "_numpy_to_onnxscript_value", None)
+                if prep is None or back is None:
+                    return super()._eval(schema, inputs, attributes, closure)
+                # Same single-op model as evaluator._call_ort builds, run on a single-threaded session:
+                # onnxruntime's default session spawns one thread per core (≈75 ms per op on a busy
+                # machine against <1 ms); the operator runtime is not what C11 is about.
+                import onnxruntime as ort
+
+                model, feeds, _names = prep(schema, inputs, attributes, closure)
+                try:
+                    sess = ort.InferenceSession(
+                        model.SerializeToString(), _session_options(), providers=("CPUExecutionProvider",)
+                    )
+                    result = sess.run(None, feeds)
+                except Exception as e:  # same contract as _call_ort: an op that cannot run is an EagerModeError
+                    raise evaluator.EagerModeError(f"{schema.name}: {e}") from e
+                return [back(x) for x in result]
 
         self.ev = Rec()
         self.log = []
@@ -374,6 +442,34 @@ def eager_plan_and_result(rec: _Recorder, case: dict):
     return "+".join(plan) if plan else "nop", res
 
 
+def plan_shape(mode: str, mplan: str) -> str:
+    """Which branch of the modelled code a case went through (read off the model's plan)."""
+    if mplan.startswith("ERR"):
+        return "refused"
+    ops = [o.split("(")[0].split("[")[0] for o in mplan.split("+")]
+    if ops == ["identity"]:
+        return "identity"
+    g = [o for o in ops if o.startswith("gather")]
+    if ops[0] == "slice":
+        sq = "+squeeze" if any(o in ("squeeze", "npsqueeze") for o in ops) else ""
+        if not g:
+            return "slice" + sq
+        kinds = ("S" if "gatherS" in g else "") + ("V" if "gatherV" in g else "")
+        return f"slice{sq}+gather{kinds}" + ("*" if len(g) > 1 else "")
+    kinds = ("S" if "gatherS" in g else "") + ("V" if "gatherV" in g else "")
+    return f"gather{kinds}" + ("*" if len(g) > 1 else "")
+
+
+# plan shapes every quick run must reach (else the generator has degenerated: exit 2, never a pass)
+REQUIRED_SHAPES = {
+    "graph": ["refused", "identity", "slice", "slice+squeeze", "slice+gatherS", "slice+gatherV",
+              "slice+squeeze+gatherS", "slice+squeeze+gatherV", "slice+squeeze+gatherS*", "gatherS",
+              "gatherV", "gatherS*", "gatherSV*"],
+    "eager": ["refused", "identity", "slice", "slice+squeeze", "slice+gatherV", "slice+squeeze+gatherV",
+              "gatherS", "gatherV", "gatherSV*"],
+}
+
+
 def strip_np(plan: str) -> str:
     parts = [p for p in plan.split("+") if not p.startswith("npsqueeze")]
     return "+".join(parts) if parts else "nop"
@@ -399,7 +495,7 @@ def compile_cases(cases):
         src = f"@script(default_opset=op)\ndef f{i}({', '.join(sig)}):\n    return A[{expr}]\n"
         bodies.append((f"f{i}", src))
         metas.append((params, src))
-    fn, err, modname = scriptgen.compile_functions(bodies)
+    fn, err, modname = scriptgen.compile_functions(bodies, header_extra=CONST_HEADER)
     return fn, err, metas, modname
 
 
@@ -427,7 +523,7 @@ def check_cases(run: core.Run, drv: core.Driver, cases, stats: Counter, do_graph
             stats["numpy_unmodelled"] += 1
             nvec = sum(1 for ck in c["comps"] if ck.startswith("V:"))
             stats["unmodelled_two_or_more_1d_indices" if nvec > 1 else "unmodelled_broadcast_axis_moves_to_front"] += 1
-        if any(ck[0] in "TV" for ck in c["comps"]) and sum(1 for ck in c["comps"] if comp_kind(ck) != "skip") > 1:
+        if any(ck[0] in "TVGM" for ck in c["comps"]) and sum(1 for ck in c["comps"] if comp_kind(ck) != "skip") > 1:
             stats["mixed_tensor_index_cases"] += 1
         for mode in (["graph"] if do_graph else []) + (["eager"] if do_eager else []):
             mplan, mres = (m_graph if mode == "graph" else m_eager).split(" | ")
@@ -441,8 +537,10 @@ def check_cases(run: core.Run, drv: core.Driver, cases, stats: Counter, do_graph
             else:
                 iplan, ires = eager_plan_and_result(rec, c)
             stats[f"{mode}_cases"] += 1
+            stats[f"shape_{mode}_{plan_shape(mode, mplan)}"] += 1
             if ires.startswith("ERR"):
                 stats[f"{mode}_err"] += 1
+                stats[f"{mode}_err_kind_{mres if mres.startswith('ERR') else 'model-ok'}"] += 1
             if axis_shift_shape(c, mode):
                 stats[f"{mode}_axis_shift_shape"] += 1
                 if not ires.startswith("ERR") and np_res != "ERR" and m_numpy != "ERR:unmodelled":
@@ -462,13 +560,20 @@ def check_cases(run: core.Run, drv: core.Driver, cases, stats: Counter, do_graph
                     (c, mode, "tie", f"impl plan={iplan} res={ires} ; model plan={mplan} res={mres}")
                 )
             # ---- property: a front end that returns a tensor returns NumPy's tensor
-            # (an expression NumPy itself rejects has no NumPy result to agree with: counted, not judged)
-            if np_res == "ERR":
-                stats[f"{mode}_numpy_rejects"] += 1
-            elif m_numpy == "ERR:unmodelled":
-                # 1-D index whose broadcast axis NumPy moves to the front: outside the documented forms
-                # ("i is a tensor holding one integer") and outside the model; counted, not judged
+            # and a front end never returns a tensor for an expression NumPy rejects
+            if m_numpy == "ERR:unmodelled":
+                # two or more 1-D indices (NumPy zips/broadcasts them, or raises when they do not
+                # broadcast) or a 1-D index whose broadcast axis NumPy moves to the front: outside the
+                # documented forms ("i is a tensor holding one integer") and outside the model;
+                # counted, not judged
                 stats[f"{mode}_outside_documented_forms"] += 1
+            elif np_res == "ERR":
+                # NumPy raises: the front end must refuse or fail too — a tensor here is a tensor that
+                # differs from (the absence of) NumPy's result
+                stats[f"{mode}_numpy_rejects"] += 1
+                if not ires.startswith("ERR"):
+                    stats[f"{mode}_tensor_where_numpy_raises"] += 1
+                    problems.append((c, mode, "property", f"{mode} returned {ires} ; numpy raises"))
             elif not ires.startswith("ERR") and ires != np_res:
                 problems.append((c, mode, "property", f"{mode} returned {ires} ; numpy {np_res}"))
             for ck in c["comps"]:
@@ -504,8 +609,8 @@ def main(run: core.Run) -> None:
 
     # corpus first (known findings' witnesses + minimised past disagreements)
     corpus = [json.loads(l) for l in (core.VERIF / "harness" / "corpus_c11.jsonl").read_text().splitlines() if l.strip()]
-    n_graph = run.size(700, 9000)
-    n_eager_extra = run.size(1500, 20000)
+    n_graph = run.size(1500, 12000)
+    n_eager_extra = run.size(4000, 30000)
     drift = core.fingerprint_drift(
         "C11", "onnxscript/_internal/converter.py", ["Converter._translate_subscript_expr"]
     ) + core.fingerprint_drift("C11", "onnxscript/tensor.py", ["Tensor.__getitem__"])
@@ -520,7 +625,7 @@ def main(run: core.Run) -> None:
     def batch(cases, **kw):
         uniq = []
         for c in cases:
-            key = case_line("x", c)
+            key = ",".join(map(str, c["shape"])) + " | " + " ".join(c["comps"])
             if key not in seen:
                 seen.add(key)
                 uniq.append(c)
@@ -531,19 +636,19 @@ def main(run: core.Run) -> None:
     ex = list(exhaustive_small())
     if run.tier == "quick":
         run.rng.shuffle(ex)
-        batch(ex[:400])
-        batch(ex[400:2400], do_graph=False)
+        batch(ex[:1000])
+        batch(ex[1000:], do_graph=False)  # eager mode sees the complete rank-1 stream in both tiers
     else:
         batch(ex)
     batch([gen_case(run.rng) for _ in range(n_graph)])
     batch([gen_case(run.rng) for _ in range(n_eager_extra)], do_graph=False)
     # the Gather/Slice split with tensor-valued indices (the family of the repaired finding D7)
-    pats = list(kind_patterns(3, run.rng)) + (list(kind_patterns(4, run.rng)) if run.tier == "thorough" else [])
+    pats = list(kind_patterns(3, run.rng)) + list(kind_patterns(4, run.rng))
     batch(pats)
     stats["kind_patterns"] = len(pats)
     mixed_ranks = (3,) if run.tier == "quick" else (3, 3, 4, 2)
-    batch([gen_mixed(run.rng, mixed_ranks) for _ in range(run.size(250, 2500))])
-    batch([gen_mixed(run.rng, mixed_ranks) for _ in range(run.size(500, 5000))], do_graph=False)
+    batch([gen_mixed(run.rng, mixed_ranks) for _ in range(run.size(800, 4000))])
+    batch([gen_mixed(run.rng, mixed_ranks) for _ in range(run.size(2000, 8000))], do_graph=False)
 
     for c in list(seen)[:6]:
         run.sample(c)
@@ -565,6 +670,7 @@ def main(run: core.Run) -> None:
             else:
                 prop_failures.append((c, mode, detail))
     stats["known_D22"] = known_counts["D22"]
+    stats["known_C11-N1"] = known_counts["C11-N1"]
 
     if prop_failures:
         prop_failures.sort(key=lambda p: (len(p[0]["comps"]), sum(p[0]["shape"]), len(str(p[0]))))
@@ -591,7 +697,7 @@ def main(run: core.Run) -> None:
             no_input=True,
         )
 
-    nontrivial = sum(1 for k in seen if (" S:" in k or " T:" in k or " I:" in k or " V:" in k))
+    nontrivial = sum(1 for k in seen if (" S:" in k or " T:" in k or " I:" in k or " V:" in k))  # G/M count as T
     run.coverage.update(
         evaluations=stats["graph_cases"] + stats["eager_cases"],
         distinct_nontrivial=nontrivial,
@@ -601,8 +707,9 @@ def main(run: core.Run) -> None:
         distribution=dict(stats),
         exhaustive=False,
         explanation="rank-1 stream (d<=4, all constant slices with bounds in [-d-2,d+2], steps ±1,±2) is enumerated "
-        + ("completely" if run.tier == "thorough" else "by sample") + "; all kind patterns {rank-0 tensor, int, slice, ':', "
-        "1-D tensor (at most one)}^rank on a 2x3x4" + ("(x5)" if run.tier == "thorough" else "") + " tensor are enumerated "
+        + ("completely" if run.tier == "thorough" else "completely for eager mode, by sample (1000) for the converter")
+        + "; all kind patterns {rank-0 tensor, int, slice, ':', "
+        "1-D tensor (at most one)}^rank, rank 3 and 4, on a 2x3x4(x5) tensor are enumerated "
         "completely (values sampled); other higher-rank cases are seeded random",
         unmodelled_not_judged={
             "broadcast_axis_moves_to_front": stats["unmodelled_broadcast_axis_moves_to_front"],
@@ -615,5 +722,9 @@ def main(run: core.Run) -> None:
             "eager_returning_a_tensor_and_judged": stats["eager_axis_shift_shape_judged_tensor"],
         },
     )
+    missing = [f"{m}:{sh}" for m, shs in REQUIRED_SHAPES.items() for sh in shs if stats[f"shape_{m}_{sh}"] == 0]
+    run.coverage["plan_shapes"] = {k[6:]: v for k, v in sorted(stats.items()) if k.startswith("shape_")}
+    if missing:
+        raise core.Infra("generator never reached these plan shapes of the modelled code: " + ", ".join(missing))
     if stats["graph_cases"] and stats["graph_refused"] > 0.3 * stats["graph_cases"]:
         raise core.Infra("generator degenerated: >30% of programs refused")
